@@ -40,7 +40,7 @@ PROPERTIES = {
                        "position of the right side and coordinate frame (A1-A5, A7: sort inference over the type-checked HIR "
                        "of algorithms/*.rs); (2) every emitted length is positive on every path (E1: predicate dataflow over "
                        "MIR).  These are necessary conditions of 'index-exact' and 'nothing empty'; ordering, gap-freeness "
-                       "as a statement about values, element-wise equality and panic-freedom are NOT examined.",
+                       "as a statement about values, element-wise equality and panic-freedom are NOT examined.  Added in round 3: the two-sided snake calls are bounded on both sides (A10 guards), the dispatcher hands its arguments to the algorithm unchanged (F17), Patience never bypasses its anchors (B7) and unique() is absorbing (F15).",
         "undecided": "ordering/gap-freeness of the callback stream as values, equality of equal segments, panic-freedom",
     },
     "C02": {
@@ -60,7 +60,7 @@ PROPERTIES = {
         "explanation": "Decided (one necessary condition only): the LCS table is built by reading the sequences through "
                        "positions derived from the requested ranges, and the walk reads the table with the same key slot "
                        "order it was written with (A2/A3/A5 restricted to lcs::make_table and lcs::diff_deadline).  "
-                       "Minimality itself, tie-breaks and the Myers middle-snake overlap test are NOT examined.",
+                       "Minimality itself, tie-breaks and the Myers middle-snake overlap test are NOT examined.  Added in round 3 (still necessary conditions only): both middle-snake passes break ties with the same comparison (F18); the LCS table obeys diagonal+1 / max(down, right) (F19); the dispatcher does not alter ranges (F17).",
         "undecided": "optimality, tie-breaking, the middle-snake overlap test",
     },
     "C04": {
@@ -71,7 +71,7 @@ PROPERTIES = {
                        "the proper side, per DiffTag arm (F4); both texts are tokenized by the same tokenizer in the right "
                        "slots and TextDiffConfig::diff stores the very token vectors it diffed (F2); indices in iter.rs / "
                        "text/mod.rs are positions of the right side (A2-A5).  Losslessness of the tokenizers (C06) and "
-                       "consecutive numbering are NOT examined.",
+                       "consecutive numbering are NOT examined.  The script-validity rules (E1-E3, G3, G5-G7, B5, F1, F5, F13) are included because reconstruction reads the captured ops; tokenizer look-ahead discipline (F20/F21) because it reads the tokens.",
         "undecided": "tokenizer losslessness, consecutive numbering of indices",
     },
     "C05": {
@@ -82,7 +82,7 @@ PROPERTIES = {
                        "same (guard, template) sequence incl. header-once and missing-newline logic (F8); hunk header extents "
                        "pair old with old and new with new (A4); the header reads carried indices, which is sound only if no "
                        "unrepaired order-changing site exists (G2 -> known finding).  Counts vs body, applicability, context "
-                       "sizes are NOT examined.",
+                       "sizes are NOT examined.  The script-validity rules (E1-E3, G3, G5-G7, B5, F1, F5, F13) are included because hunks are cut from the captured ops.",
         "undecided": "header counts vs hunk body, strict applicability, context radius arithmetic",
     },
     "C06": {
@@ -90,7 +90,7 @@ PROPERTIES = {
         "rules": ["F7", "F11", "F12", "F20", "F21", ("A6", infile("text/abstraction.rs"))],
         "explanation": "Decided (necessary conditions only): the str and [u8] tokenizers use the same break characters and "
                        "character-class predicates (F7), and token boundaries are byte offsets advanced by byte lengths, never "
-                       "by counts (A6 in abstraction.rs).  Losslessness, non-emptiness and token shapes are NOT examined.",
+                       "by counts (A6 in abstraction.rs).  Losslessness, non-emptiness and token shapes are NOT examined.  F20: look-ahead never consumes; F21: no delegation to std line splitters (lone CR).",
         "undecided": "losslessness, non-emptiness, token shapes (index bookkeeping over runtime offsets)",
     },
     "C07": {
@@ -120,7 +120,7 @@ PROPERTIES = {
         "rules": ["E1", "B5", "F1", "G3", "G5", "G6", "G7", "F13", "F16"],
         "explanation": "Decided: no algorithm emits an empty op (E1); Replace merges runs and emits delete/replace before "
                        "insert, flushing in order (B5); both adapters are in the capture pipeline, Compact outside Replace (F1)."
-                       "  Alternation after compaction and 'insertion sits at its latest position' are NOT examined.",
+                       "  Alternation after compaction and 'insertion sits at its latest position' are NOT examined.  Round 3: only an op tested to be Equal absorbs equal items (G7); merged same-kind ops grow by the right side (F13); the insert/delete slide-down arms are twins (F16); no stale op snapshot across list mutation (G5).",
         "undecided": "alternation after compaction, latest-position clause (value reasoning)",
     },
     "C10": {
@@ -149,7 +149,7 @@ PROPERTIES = {
         "explanation": "Decided: per-variant tables of ChangesIter::next, as_tag_tuple, apply_to_hook and both iter_slices "
                        "(F3/F4: tags, Some/None indices, value side, Replace = deletes then inserts, twins identical); old "
                        "cursor indexes old, new cursor indexes new, apply_to_hook passes fields in slot order (A1/A2/A4).  "
-                       "'One change per item' counts are NOT examined.",
+                       "'One change per item' counts are NOT examined.  Round 3: forwarding hooks forward replace as replace (B4: re-applying an op to a borrowed capturing hook reproduces it); every arm of apply_to_hook, including refined ones, calls the same-named method (F3); no partial re-initialisation of an expansion iterator (F22).",
         "undecided": "counts of yielded changes",
     },
     "C14": {
@@ -167,7 +167,7 @@ PROPERTIES = {
         "rules": ["F15", "B6", "B7", "F17"] + a_rules(("algorithms/patience.rs", "algorithms/utils.rs", "algorithms/myers.rs")),
         "explanation": "Decided (one clause): anchors are translated from unique-list coordinates to original coordinates "
                        "only through original_index(), per side and per frame (A1-A5, A7 with frames U vs F0 in patience.rs "
-                       "and unique()).  Maximality and the uniqueness filter are NOT examined.",
+                       "and unique()).  Maximality and the uniqueness filter are NOT examined.  Round 3: the dispatcher passes the caller's ranges unchanged (F17) and patience::diff_deadline runs Myers only on the Patience hook (B7), so the uniqueness analysis always sees the requested ranges and is never bypassed.",
         "undecided": "maximality of the anchor set, the uniqueness filter",
     },
     "C16": {
@@ -185,7 +185,7 @@ PROPERTIES = {
         "rules": ["F3", "F2"] + SCRIPT_VALID + a_rules(("utils.rs", "text/mod.rs")) + [("A6", infile("src/utils.rs"))],
         "explanation": "Decided: source.slice receives byte offsets accumulated from token byte lengths (A6); the old remapper "
                        "is built from old text + old tokens, new from new (A3/A4); iter_slices twin agreement (F3); helper "
-                       "wiring (F2).  Reconstruction and 'never panics' are NOT examined.",
+                       "wiring (F2).  Reconstruction and 'never panics' are NOT examined.  The script-validity rules (E1-E3, G3, G5-G7, B5, F1, F5, F13) are included because remapping reads the captured ops.",
         "undecided": "reconstruction of the texts, absence of panics",
     },
     "C20": {
@@ -194,7 +194,7 @@ PROPERTIES = {
         "explanation": "Decided: the only order-sensitive hash iteration is sorted before use (D2); no clock/thread/env/"
                        "random/address dependence outside the deadline probe (D3, C5); items are only compared with ==/!= and "
                        "hashed, never ordered or formatted (D4: relabelling invariance); str and [u8] tokenizers classify "
-                       "alike (F7).  Equality of str vs bytes ops depends on C06 and is NOT examined.",
+                       "alike (F7).  Equality of str vs bytes ops depends on C06 and is NOT examined.  F20/F21: the str and [u8] line tokenizers scan for line ends themselves, with peek-only look-ahead, so both see the same boundaries.",
         "undecided": "str vs [u8] ops equality beyond the classification tables",
     },
 }
